@@ -108,6 +108,21 @@ def uniCheck (c : UniCtx S) (bytesOf : Id → Option Bytes) (piece : Bytes) (ids
       match walkU (ids.length + 1) 0 0 Cost.zero ids with
       | none => .holds
       | some why => .fails why
+    | some .bytes, _ =>
+      -- byte fallback: when every returned id is a vocabulary id, the ids spell the piece, bytes in text order
+      -- (C04: "every returned non-unknown token still matches the text at its position")
+      let spelled := ids.foldl (fun acc t => match acc, bytesOf t with
+        | some a, some b => some (a ++ b) | _, _ => none) (some [])
+      -- with `Skip` further down the list bytes may have been dropped: then the ids spell a subsequence
+      let rec isSubseq : Bytes → Bytes → Bool
+        | [], _ => true
+        | _ :: _, [] => false
+        | x :: xs, y :: ys => if x == y then isSubseq xs ys else isSubseq (x :: xs) ys
+      match spelled with
+      | some b =>
+        if c.fallback.contains .skip then (if isSubseq b piece then .holds else .fails "byte-fallback-misspells-the-piece")
+        else if b == piece then .holds else .fails "byte-fallback-misspells-the-piece"
+      | none => .notApplicable "an id outside the vocabulary in the output"
     | _, _ => .notApplicable "no unknown fallback"
 
 /-- C06, error answers: a necessary condition for an error on the bytes `x` of a hole under the fallback list
